@@ -43,6 +43,9 @@ CHECKS["C11"] = ("exploration", "deterministic simulation with a reference join 
 CHECKS["C07"] = ("exploration", "deterministic simulation, twin execution (2-safety / non-interference): the same seeded history with and without the frames the reference codec rejects, on two fresh devices with identical per-operation RNG seeds",
  "Which frames are rejected is decided by the independent reference codec at delivery time; the twin script removes exactly those (kept frames are pinned to the delivered bytes) and both runs are compared operation by operation: every radio request (uplink bytes, TxConfig, RX configurations), timer request relative to TX end, response, delivered downlink and the H1 snapshot. Rejected frames are biased to arrive when there is state to lose (sticky answers, owed ACK). Sampling.",
  "Trusted: reference codec verdicts; determinism of the device under the per-operation RNG reseeding (proven by the determinism self-test); the receptions themselves are excluded from the comparison. For an oversize frame the twin follows whichever allowed behaviour the device showed.", "6 (C07)")
+CHECKS["C20"] = ("exploration", "deterministic simulation with crash/restore at arbitrary operation boundaries (durable state = the serde_json text only) compared in lock-step with a twin that is never power-cycled; structurally mutated documents",
+ "A save / power-loss / restore-into-a-fresh-device step is inserted at 1-4 arbitrary boundaries of seeded histories (counters at 16/32-bit boundaries, no downlink yet, one-shot and sticky answers up to 15 bytes pending, owed ACK); at each restore the session equals its pre-image field by field (H1) and re-serialises to the same text, and the restored device is compared with a twin that keeps running: uplink bytes, responses to fresh and replayed downlinks, delivered payloads, every session field after every operation. One run in three restores from a structurally mutated document, which must be refused or leave every later operation panic-free. Sampling.",
+ "Trusted: serde_json as storage, the harness re-applying the application's data-rate / ADR settings after a restore (the MAC configuration is not part of the persisted session). Crash points are operation boundaries; power loss inside a transaction is not modelled.", "6 (C20)")
 PENDING = {}
 
 def main():
